@@ -150,6 +150,12 @@ def o_reader(case):
         f = framing.build_frame(bytes([n >> 4, (n & 0xF) << 4]) + tail_for(n, 0, 1, 1 + n % 5))
         good.append((n, f))
         stream += bytes(bad) + f
+        # the bare number (a two-byte payload, the shortest that carries an identity) and a frame whose checksum
+        # trailer reads CR LF (the three payload bytes in front of it are solved for)
+        f2 = framing.build_frame(bytes([n >> 4, (n & 0xF) << 4 | (n % 16)]))
+        f3 = framing.frame_with_trailer(bytes([n >> 4, (n & 0xF) << 4]), bytes([n % 256, 0x0D, 0x0A]))
+        good += [(n, f2), (n, f3)]
+        stream += f2 + f3
     with diagnostics(bool(case.get("diag"))):
         try:
             got = list(RTCMReader(io.BytesIO(bytes(stream)), quitonerror=case["qoe"]))
